@@ -82,13 +82,13 @@ theorem sim_enter (n : Nat) (ih : ∀ m, m ≤ n → SimStmt T m) (p : Stmt → 
     ∀ (m : Nat), m ≤ n → ∀ (b' : Stmt) (s : Store) (out : CSem2.Outcome) (lp : Bool × Bool)
       (brk cont : String) (c : SCtx) (nd nd' : Nat) (pre post : List Item) (env : Env) (M : Mem)
       (st0 : State),
-    after p b = some b' → exec T.S.cs m s b' = some out →
-    frag b = true → Stmt.wt T.vtys T.ret lp.1 lp.2 nd b = some nd' →
+    after p b = some b' → exec T.S.cs T.P m s b' = some out →
+    frag T.P b = true → Stmt.wt T.vtys T.ret lp.1 lp.2 nd b = some nd' →
     PosS T c nd pre → (c.jump = none ∨ b.startsLabel = true) →
     Ext T (funcstmt T.S.cs brk cont b c).ctx →
     T.S.its = pre ++ (funcstmt T.S.cs brk cont b c).items ++ post →
     ((lp.1 = true → CanJump T.S brk) ∧ (lp.2 = true → CanJump T.S cont)) →
-    SInv T.S.cs T.σ T.vtys s env M →
+    SInv T.M0 T.S.cs T.σ T.vtys s env M →
     (∀ l, targetLabel T.S.cs brk cont p b c = some l → AtLabel T.S l env M st0) →
     Post T lp brk cont st0 (pre ++ (funcstmt T.S.cs brk cont b c).items)
       (funcstmt T.S.cs brk cont b c).ctx out := by
@@ -129,7 +129,7 @@ theorem sim_enter (n : Nat) (ih : ∀ m, m ≤ n → SimStmt T m) (p : Stmt → 
         | zero => simp only [exec] at hex; cases hex
         | succ m =>
           simp only [exec] at hex
-          cases hea : exec T.S.cs m s x' with
+          cases hea : exec T.S.cs T.P m s x' with
           | none => rw [hea] at hex; cases hex
           | some oa =>
             rw [hea] at hex
@@ -138,10 +138,10 @@ theorem sim_enter (n : Nat) (ih : ∀ m, m ≤ n → SimStmt T m) (p : Stmt → 
                 intro l hl
                 apply hat
                 simp only [targetLabel, hl])
-            have hres : seqRes T.S.cs m y oa = some out := by
+            have hres : seqRes T.S.cs T.P m y oa = some out := by
               cases oa <;> simpa [seqRes] using hex
             exact seq_cont T m (ih m (by omega)) x y hfr.2 hwt hp hjs hext hits hlp pa
-              (fun he => endsJump_abnormal T.S.cs m x' s oa
+              (fun he => endsJump_abnormal T.S.cs T.P m x' s oa
                 (by rw [after_endsJump p hpl x x' hax]; exact he) hea) hres
       | none =>
         -- the label is in `y`: `x` is skipped
